@@ -67,8 +67,14 @@ PI = ["PI", 0, 1]
 MAXI = 1 << 26
 
 
+def _near(x, y):
+    return abs(x - y) <= 1e-9 * max(1.0, abs(x), abs(y))
+
+
 def float_to_scalar(x, log_domain=False, max_den=64):
-    """Exact spec scalar for a float, or None when it is not exactly explainable."""
+    """Exact spec scalar for a float, or None when it is not explainable: a rational with
+    a small denominator, or - in log_domain - log of a ratio of small integers (within
+    1e-9 relative).  The candidate sets are kept sparse so that snapping is unambiguous."""
     x = float(x)
     if math.isnan(x):
         return None
@@ -79,14 +85,20 @@ def float_to_scalar(x, log_domain=False, max_den=64):
     if log_domain:
         if x == 0.0:
             return ["R", 0, 1]
-        e = math.exp(x)
-        f = Fraction(e).limit_denominator(max_den * 64)
-        if f <= 0 or f.numerator > MAXI or f.denominator > MAXI:
+        if abs(x) > 14:
             return None
-        if abs(math.log(f.numerator) - math.log(f.denominator) - x) <= 1e-9 * max(1.0, abs(x)):
+        e = math.exp(x)
+        f = Fraction(e).limit_denominator(1024)
+        if f <= 0 or f.numerator > (1 << 20):
+            return None
+        if f.denominator > 1 and f.numerator > 1024:
+            return None
+        if _near(math.log(f.numerator) - math.log(f.denominator), x):
             return L(f.numerator, f.denominator)
         return None
+    if abs(x) > MAXI:
+        return None
     f = Fraction(x).limit_denominator(max_den)
-    if float(f) == x and abs(f.numerator) <= MAXI:
+    if _near(float(f), x) and abs(f.numerator) <= MAXI:
         return ["R", f.numerator, f.denominator]
     return None
